@@ -19,10 +19,28 @@ not move.  A schedule is any list of thread numbers: every interleaving the runt
 granularity.  Nothing in `move` checks that a thread inside its critical section holds the lock — that, and
 that at most one thread is inside, is the first half of the invariant (`Proofs/Locking.lean`).
 
-What is *not* modelled: the Go memory model (that a mutex release/acquire pair makes the holder's writes
-visible to the next holder is `sync.Mutex`'s documented guarantee, trusted), and the scheduler's fairness
-(irrelevant for safety).  Whether the real `ServeHTTP` has this shape is a structural fact extracted from the
-source on every run (`engine-facts`), and the race detector is run over the real server (`engine-conc`).
+LIMITATION — mutual exclusion is built into `move`.  The shared state is touched only by a thread in phase
+`running`, and `running` is entered only from `arrived` by taking the FREE lock.  An access to shared state that
+is not under the lock (a handler that forgets the lock, a second lock, a write from outside `ServeHTTP`) is not
+expressible in this model, so no theorem about it says that the code synchronises its accesses.  That the code
+has the shape the model assumes is a structural fact extracted from the Go source on every run (`engine-facts`:
+`ServeHTTP` locks first and unlocks by `defer`, no `go` statement in the handlers), and the race detector is
+run over the real server (`engine-conc`); the property's clause "never read or written unsynchronised" rests
+on those two, not on Lean.  What the theorems do establish: GIVEN that shape, every interleaving of the
+micro-steps is equivalent to running the same micro-steps request by request in lock-acquisition order.
+
+What else is *not* modelled: the Go memory model (that a mutex release/acquire pair makes the holder's writes
+visible to the next holder is `sync.Mutex`'s documented guarantee, trusted), the scheduler's fairness
+(irrelevant for safety), panics inside a handler, and adaptive clients (a client's program `prog t` is a list
+fixed up front; its next request does not depend on earlier answers).
+
+Lock placement.  In the Go code net/http has read the request line and headers before `ServeHTTP` runs, but
+the handler reads the request BODY and writes the response inside the critical section; here everything read
+from the request is `pre` (before the lock) and delivery (`responding → idle`) is after the release.  Neither
+touches shared state.  Reading the body inside the lock only removes interleavings.  Writing the response
+inside the lock means a real client may see its answer slightly BEFORE the lock is released, an order of
+events the model does not have; the request was logged at acquisition, earlier still, so the real-time
+argument (`real_time_order`) does not depend on it, but it is proved for the model's order of events only.
 
 Core Lean only.
 -/
@@ -113,5 +131,23 @@ def requestsOf (log : List (Nat × Handler S L R)) (t : Nat) : List (Handler S L
 /-- everything has been sent and answered -/
 def Quiescent (c : Config S L R) : Prop :=
   ∀ t, (c.threads t).todo = [] ∧ (match (c.threads t).phase with | .idle => True | _ => False)
+
+/-! ## Vocabulary for statements about thread-tagged lists (the log, an interleaving, tagged responses) -/
+
+/-- the entries of a thread-tagged list that carry the tag `t`, in order, without the tag
+(`requestsOf log t = proj log t` and `respsOf s0 log t = proj (serialResps s0 log) t`, both by `rfl`) -/
+def proj {α : Type} (xs : List (Nat × α)) (t : Nat) : List α :=
+  (xs.filter (fun x => x.1 == t)).map (·.2)
+
+/-- the position in `xs` of the `k`-th entry (counting from 0) tagged `t`, if there are that many:
+`posOf log t k` is the place in the serial order of the `k`-th request of client `t` -/
+def posOf {α : Type} : List (Nat × α) → Nat → Nat → Option Nat
+  | [], _, _ => none
+  | x :: rest, t, k =>
+    if x.1 = t then
+      match k with
+      | 0 => some 0
+      | k + 1 => (posOf rest t k).map (· + 1)
+    else (posOf rest t k).map (· + 1)
 
 end Crem.Locking
